@@ -56,6 +56,21 @@ namespace detail {
 
 #define RLBOX_UNUSED(...) (void)__VA_ARGS__
 
+// Verification hooks (compiled in only with -DALLENABY_RLBOX_VERIF): interleave
+// points between RLBox's successive reads of sandbox memory, so that a test
+// harness can mutate sandbox memory deterministically at each point.
+#ifdef ALLENABY_RLBOX_VERIF
+  inline void (*verif_yield_hook)(const char* point, size_t index) = nullptr;
+#  define RLBOX_VERIF_YIELD(point, index)                                      \
+    do {                                                                       \
+      if (::rlbox::detail::verif_yield_hook != nullptr) {                      \
+        ::rlbox::detail::verif_yield_hook(point, index);                       \
+      }                                                                        \
+    } while (0)
+#else
+#  define RLBOX_VERIF_YIELD(point, index) (void)0
+#endif
+
 #define RLBOX_REQUIRE_SEMI_COLON static_assert(true)
 
 #define if_constexpr_named(varName, ...)                                       \
